@@ -158,12 +158,19 @@ theorem cells_are_the_statics :
       (CellId.all.map (fun c => (c.rustName, c.scope))) := by decide
 
 /-- no `unsafe`, no `static mut`, no thread-local, no lock/atomic/`RefCell`, no `Arc` identity test
-anywhere in the scanned sources: every entry has one of the eight harmless kinds -/
+anywhere in the scanned sources: every entry has one of the eight harmless kinds — or is THE one hash
+container (the decoded holiday database, looked up by key only; see `knownInventory`) -/
 theorem no_other_shared_state :
     OH.Generated.SharedState.inventory.all (fun e =>
       ["static-LazyLock", "static-Once", "log-call", "logger-init", "type-named-Cell", "clock", "env",
-       "pyclass-mutable"].contains e.2.2.1) = true := by
+       "pyclass-mutable"].contains e.2.2.1
+      || e == ("opening-hours/src/localization/country/mod.rs", "HashMap", "hash-container", "holidays")) = true := by
   decide
+
+/-- exactly one hash container (a container whose iteration order depends on a per-instance random
+state) in the scanned sources -/
+theorem one_hash_container :
+    (OH.Generated.SharedState.inventory.filter (fun e => e.2.2.1 == "hash-container")).length = 1 := by decide
 
 /-- an API function can only force the cells whose (function-local) scope it is, or those of the
 functions it calls: `Context::from_coords` = `try_from_coords` + `holidays` + `TzLocation::from_coords` -/
